@@ -267,7 +267,7 @@ def run(tier, seed, workers):
             'option combinations + ALPHA(SIGMA12=%r, %d): all %d strings x %d option '
             'combinations%s; %d (renderer, x, o) triples were excluded by the side conditions'
             % (', '.join(RENDERERS), len(spec), len(muts), ''.join(mut_chars),
-               'unbounded' if thorough else mut_maxlen,
+               'any (no length limit)' if thorough else mut_maxlen,
                '8' if thorough else '4 (process_html_tokens x both quote options equal)',
                ''.join(SIGMA12), alpha_n, n_alpha,
                alpha_opts, '' if alpha_opts == 8 else ' (all options off / all on)', excluded)),
